@@ -81,8 +81,10 @@ Menu(n, file) ==
 \* named edit sets (a cfg file cannot write a set of tuples)
 EditsMasks == {<<"n1", "M">>, <<"n2", "M">>, <<"n4", "P">>}
 EditsEnv   == {<<"n1", "E">>, <<"n3", "E">>, <<"n4", "P">>}
-EditsMixed == {<<"n1", "M">>, <<"n2", "E">>, <<"n2", "K">>, <<"n4", "P">>}
+EditsMixed == {<<"n1", "M">>, <<"n2", "E">>, <<"n4", "P">>}
+EditsQ0 == {<<"n1", "M">>}
 EditsQ1 == {<<"n1", "M">>, <<"n4", "P">>}
+EditsQ2a == {<<"n1", "E">>}
 EditsQ2 == {<<"n1", "E">>, <<"n2", "E">>}
 EditsQ3 == {<<"n2", "K">>, <<"n2", "V">>}
 EditsLawEnvQ  == {<<"n4", "P">>, <<"n3", "P">>, <<"n1", "E">>, <<"n2", "E">>, <<"n4", "E">>}
@@ -121,8 +123,10 @@ LawPaths == OncePerPath(s.disk)
 StableRead == [][\A o \in s.open \cap s'.open : \A a \in DOMAIN s.got[o] :
                     a \in DOMAIN s'.got[o] /\ s'.got[o][a] = s.got[o][a]]_vars
 ReadOnce   == [][s'.open = {} \/ \A k \in ReadKeys(s) : s'.seen[k] = s.seen[k]]_vars
+\* whenever an object gains attributes, a Get explains it, and a Get that raised left at most the stack behind
 FailedGetCachesNoValue ==
-  [][\A o \in s.open, a \in GetAttrs :
-       (a \notin DOMAIN s.got[o] /\ DoGetWith(s, o, a, NodeCache).ret.raised /\ s' = DoGetWith(s, o, a, NodeCache).s)
-          => a \notin DOMAIN s'.got[o]]_vars
+  [][\A o \in s.open \cap s'.open :
+       LET gained == DOMAIN s'.got[o] \ DOMAIN s.got[o] IN
+       gained # {} => \E a \in GetAttrs : LET r == DoGetWith(s, o, a, NodeCache) IN
+                                            s' = r.s /\ (r.ret.raised => gained \subseteq {"stack"})]_vars
 =========================================================================
